@@ -300,7 +300,8 @@ def predict_ckpt_on_training(scratch: Path):
 
 def run_property(prop: str, tier: str, specs, *, level="model_checking", crash_is_violation=False, scripted=False,
                  predict_mid_ckpt=False,
-                 extra_cov=None, also=(), sig_of=None, capit=0, note="", ins_specs=(), ins_scripted=False):
+                 extra_cov=None, also=(), sig_of=None, capit=0, note="", ins_specs=(), ins_scripted=False,
+                 extra_checks=None):
     """Run the corpus, validate, report P-failures of `prop` (and of `also`)."""
     seed = seed_from_env()
     v = Verdict(prop, tier, seed, level)
@@ -500,6 +501,8 @@ def run_property(prop: str, tier: str, specs, *, level="model_checking", crash_i
         }
         if extra_cov:
             v.coverage.update(extra_cov(hs, packed, records))
+        if extra_checks:
+            v.coverage.update(extra_checks(v, scratch, tier, seed) or {})
     v.assumptions = [
         "point identity = 64-bit digest of parameters, logP and logL; likelihoods compared through dense ranks",
         "numeric equalities (stored logL/logP vs model, recomputed evidence) are evaluated by vf/oracle.py at 1e-9",
